@@ -201,6 +201,11 @@ func runC10(o Opts) error {
 			if len(d) > 2048 {
 				d = d[:2048+r.Intn(2)] // the read buffer is 2048 bytes: longer datagrams are truncated by the kernel read
 			}
+			if i == n/2 { // every session carries one empty datagram and one of a single byte
+				d = []byte{}
+			} else if i == n/2+1 {
+				d = d[:1]
+			}
 			ds = append(ds, d)
 			hx = append(hx, hexs(d))
 		}
